@@ -69,7 +69,7 @@ def run(ctx):
               "rationals from the pairs and the initial matrix the implementation started from; the initial matrix is the "
               "documented one; diagonal variant: M diagonal with non-negative entries, or ValueError, never NaN.")
   ctx.trusted = ["Coq 8.16.1 kernel + vm_compute", "model Model/MMC.v (outer loop over abstract oracles)",
-                 "oracle: numpy eigh inside the projection", "soundness of the exact LDL^T test not yet mechanised"]
+                 "oracle: numpy eigh inside the projection"]
   ok = ctx.build_property()
   terms, recs = [], []
   n = 60 if thorough else 14
